@@ -185,7 +185,16 @@ def mutate_stream(rnd, lines):
         if k < 0.5:
             out.append(l)
         elif k < 0.55:
-            out.append(inflate(rnd, l))
+            w = l.split(b" ")
+            if len(w) >= 6 and w[1] == b"C" and rnd.random() < 0.6:
+                # an announce whose address text is not an address: too many components, groups, digits
+                bad = rnd.choice([b".".join([b"65"] * rnd.choice([5, 8, 24, 32, 48])), b":".join([b"1"] * rnd.choice([9, 12, 40])),
+                                  b"0::" + b".".join([b"65"] * rnd.choice([5, 9, 33])), b"1" * rnd.choice([40, 200]), b"1.2.3.4.", b"::1",
+                                  b"fffff::1", b"1:2:3:4:5:6:7:8:9", b"256.1.1.1", b"1..2.3", b"-1.2.3.4", b"0x10.1.1.1"])
+                w[rnd.choice([2, 4])] = bad
+                out.append(b" ".join(w))
+            else:
+                out.append(inflate(rnd, l))
         elif k < 0.65:
             out.append(l[:rnd.randrange(len(l) + 1)])                    # truncated line
         elif k < 0.72:
